@@ -543,3 +543,45 @@ theorem lineRT_dateRange (t : ExtXDateRange) (h : t.WF) : LineRT (.dateRange t) 
   · intros; simp
 
 end Hls
+
+namespace Hls
+
+/-! ## what the parser guarantees, what stays a fact about floats / the valid-text domain -/
+
+def ClientValPre : Value → Prop
+  | .string s => Quotable s
+  | .hex bs => ∀ b ∈ bs, b < 256
+  | .float _ => True
+
+/-- guaranteed for every date range the parser returns (`dateRange_parse_pre`) -/
+structure DateRangePre (t : ExtXDateRange) : Prop where
+  id : Quotable t.id
+  cls : ∀ x, t.«class» = some x → Quotable x
+  sd : ∀ x, t.start_date = some x → Quotable x
+  ed : ∀ x, t.end_date = some x → Quotable x
+  ckeys : ∀ e ∈ t.client_attributes, ClientKeyOK e.1
+  cvals : ∀ e ∈ t.client_attributes, ClientValPre e.2
+  sorted : KeysLt t.client_attributes
+  rules : t.end_on_next = true → t.«class».isSome = true ∧ t.duration.isNone = true ∧ t.end_date.isNone = true
+
+/-- not guaranteed by parsing alone: the decimal renderings read back (FL2 for the two durations, FL1 for
+float-valued client attributes), and the SCTE35 values are plain tokens (they are hexadecimal sequences in
+valid text; the parser also accepts a quoted string, which the writer would print without quotes) -/
+structure DateRangeOpen (t : ExtXDateRange) : Prop where
+  dur : ∀ n, t.duration = some n → parseSecs (showSecs n) = .ok n ∧ plainVal (showSecs n) = true
+  pdur : ∀ n, t.planned_duration = some n → parseSecs (showSecs n) = .ok n ∧ plainVal (showSecs n) = true
+  cmd : ∀ x, t.scte35_cmd = some x → plainVal x = true
+  out : ∀ x, t.scte35_out = some x → plainVal x = true
+  inn : ∀ x, t.scte35_in = some x → plainVal x = true
+  floats : ∀ e ∈ t.client_attributes, ∀ f, e.2 = .float f → ValueRT (.float f)
+
+theorem dateRange_wf_of (t : ExtXDateRange) (hp : DateRangePre t) (ho : DateRangeOpen t) : t.WF := by
+  refine ⟨hp.id, hp.cls, hp.sd, hp.ed, ho.dur, ho.pdur, ho.cmd, ho.out, ho.inn, hp.ckeys, ?_, hp.sorted, hp.rules⟩
+  intro e he
+  have := hp.cvals e he
+  cases hv : e.2 with
+  | string s => rw [hv] at this; exact value_string_rt s this
+  | hex bs => rw [hv] at this; exact value_hex_rt bs this
+  | float f => exact ho.floats e he f hv
+
+end Hls
